@@ -258,6 +258,14 @@ def graph_include_text(corruptions):
 
 
 ISAR_SNIPPETS = [
+    '<struct name="SS"><member name="" type="u8"><dimension size="THIS_IS_VARIABLE_SIZE_ARRAY"/></member></struct>',
+    '<struct name="SS"><member name="x" type="u8"><dimension size="THIS_IS_VARIABLE_SIZE_ARRAY"/></member></struct>',
+    '<struct name="SS"><member name="numOfX" type="u8"/><member name="x" type="u8"><dimension size="THIS_IS_VARIABLE_SIZE_ARRAY"/></member></struct>',
+    '<struct name=""><member name="a" type="u8"/></struct>', '<enum name="EE"><enum-member name="" value="1"/></enum>',
+    '<union name="UU"><member name="" type="u8" discriminatorValue="1"/></union>', '<typedef name="" type="u8"/>',
+    '<constant name="" value="1"/>',
+    '<struct name="SS"><member name="a" type="u8"><dimension isVariableSize="true" variableSizeFieldType="r32"/></member></struct>',
+    '<struct name="SS"><member name="a" type="u8"><dimension isVariableSize="true" variableSizeFieldName=""/></member></struct>',
     '<struct name="Rec"><member name="r" type="Rec"/></struct>',
     '<struct name="RecA"><member name="b" type="RecB"/></struct><struct name="RecB"><member name="a" type="RecA"/></struct>',
     '<typedef name="TT1" type="TT2"/><typedef name="TT2" type="TT1"/>',
@@ -308,6 +316,8 @@ def apply_xml(text, c):
     k = c["k"]
     if k == "snippet":
         return text.replace("</dom>", c["text"] + "\n</dom>")
+    if k == "prolog":
+        return re.sub(r'encoding="[^"]*"', 'encoding="%s"' % c["text"], text, count=1)
     if k == "graph":
         text = text.replace("</dom>", c["text"] + "\n</dom>")
         if c.get("inc") and GRAPH_INCLUDE not in text:
@@ -347,6 +357,9 @@ def draw_xml_corruption(tape, text, names):
     if mode == 6:
         return draw_isar_graph(tape)
     if mode == 7:
+        if tape.chance(1, 2):
+            return {"k": "prolog", "text": tape.pick(["utf-7", "cp932", "bogus-9", "latin-1", "utf-16", "rot13", "utf-32", "big5",
+                                                       "idna", "undefined", "ascii", "UTF-8", ""])}
         return {"k": "snippet", "text": draw_const_chain(tape, isar=True)}
     if mode == 0:
         return {"k": "snippet", "text": tape.pick(ISAR_SNIPPETS)}
@@ -383,8 +396,13 @@ def draw_patch(tape, schema):
             sname, mname = s["name"], m["name"]
         else:
             sname, mname = "Nope", "x"
-        kind = tape.draw(19)
-        if kind == 0:
+        kind = tape.draw(21)
+        if kind == 19:
+            lines.append("%s insert %s extra u8" % (sname, tape.pick(["99999999999999999999999999", "-99999999999999999999999999",
+                                                                     "4294967296", "-1", "2"])))
+        elif kind == 20:
+            lines.append("%s type %s %s" % (sname, mname, tape.pick(["r32", "float", "Nope", "u8", sname])))
+        elif kind == 0:
             lines.append("%s type %s u32" % (sname, mname))
         elif kind == 1:
             lines.append("%s insert 0 extra u8" % sname)
